@@ -84,7 +84,7 @@ package blocklist
 //@ func (*BlockList).snapshotLocked
 //@   requires b != nil
 //@   nosafety ovf
-//@   assert at return: result.version == old(b.version) + 1 && b.version == old(b.version) + 1
+//@   assert at return: old(b.version) < 18446744073709551615 ==> result.version == old(b.version) + 1 && b.version == old(b.version) + 1
 //@
 //@ func (*BlockList).persist
 //@   requires b != nil && b.cfg != nil
